@@ -20,6 +20,21 @@ def check(F, rep):
     rep.exact("order", "query_pairs calls", len(qp), 1)
     ts = find_calls(f, regex=r"HeaderValue::to_str$")
     rep.exact("order", "HeaderValue::to_str calls", len(ts), 1)
+    if not ts:
+        # iterator-chain form: the conversion sits in a closure; its `?` leaves only the
+        # closure, so what happens next is the combinator's business
+        SKIP = r"Iterator::(filter_map|find_map|flat_map|filter|flatten|any|position)$"
+        for g in F.tree(f):
+            if g is f:
+                continue
+            for cb, ct in find_calls(g, regex=r"HeaderValue::to_str$"):
+                rep.fn(g)
+                users = [(b, t) for b, t in f.calls() if any(("closure@" in str(f.locals[op_base(a)]) and ":%d:" % g.line in str(f.locals[op_base(a)])) for a in t["args"] if op_base(a) is not None)]
+                comb = [callee_names(t)[0] for b, t in users]
+                skipping = [c for c in comb if re.search(SKIP, c)]
+                rep.ob("order", not skipping and False, site(g, cb),
+                       "HeaderValue::to_str is evaluated inside a closure handed to %s: a non-ASCII header value only ends that closure call%s instead of ending the extraction with None" % (comb or "an iterator adapter", " and the adapter skips the element and goes on to later headers / the query" if skipping else " (adapter semantics not in the rule's table)"),
+                       skey(F, f, "non-ascii-aborts"))
     if not (nx and qp and ts):
         return
     nb, nt = nx[0]
